@@ -2,8 +2,8 @@
   C13 — the child-order part of pysaml2's serialiser (`SamlBase._add_members_to_element_tree`):
   the members of an element class are written in the order of `c_child_order` (or of `c_children`
   when that list is empty), every list member contributing all its items, every singleton member
-  its item when it is set.  Extension elements come after all members; the model covers instances
-  without extension elements.
+  its item when it is set.  Extension elements come after all members (`tagsOfExt`, second part of
+  this file).
 
   A class row (regenerated from the class tables, `Gen/ClassRows.lean`) lists, in serialisation
   order, the child tag and the cardinality the class declares for each member
@@ -84,5 +84,46 @@ def particlesOf (S : Schema) (elem : Nat) (ps : List Particle) : Bool :=
          | some T => (match T.content with | .elems _ re => re == contentRe ps | _ => false)
          | none => false)
       | _ => false
+
+/-! ## Extension elements
+
+`SamlBase._add_members_to_element_tree` writes the extension elements of an instance AFTER all its
+members, in the order in which they were added (`add_extension_element`).  In the schema set the
+types that admit them end in an unbounded wildcard particle (`md:Extensions`, `samlp:Extensions`,
+the metadata endpoints, `ds:SignatureMethod`, `ds:Object` …). -/
+
+/-- Child names of a serialised instance that holds `counts[i]` items in its i-th member and the
+    extension elements `exts`. -/
+def tagsOfExt (ms : List Member) (counts : List Nat) (exts : List QN) : List QN :=
+  tagsOf ms counts ++ exts
+
+/-- A content model whose last top-level particle is an unbounded leaf: the particles before it,
+    the symbols of that last particle and its `minOccurs`. -/
+def extSplit (ps : List Particle) : Option (List Particle × List Sym × Nat) :=
+  match ps.getLast? with
+  | some (.leaf syms lo none) => some (ps.dropLast, syms, lo)
+  | _ => none
+
+/-- `orderCompat` for a class whose instances may carry extension elements: the members follow the
+    part of the content model before the final unbounded particle. -/
+def extCompat (ps : List Particle) (ms : List Member) : Bool :=
+  match extSplit ps with
+  | some (pre, _, _) => orderCompat pre ms
+  | none => false
+
+/-- The extension elements are as many as the final particle asks for and each of them is admitted
+    by it (for `##other`: a namespace, and not the target namespace). -/
+def extsOk (ps : List Particle) (exts : List QN) : Bool :=
+  match extSplit ps with
+  | some (_, syms, lo) => decide (lo ≤ exts.length) && exts.all (fun q => syms.any (fun s => s.sat q))
+  | none => false
+
+/-- The row of a pure container of extension elements (`md:Extensions`, `samlp:Extensions`): no
+    members, and the content model is one wildcard particle `##other`, at least one occurrence. -/
+def isExtContainer (r : ClassRow) : Bool :=
+  r.members.isEmpty &&
+  (match r.ps with
+   | [.leaf [.any (.other _) _] (_ + 1) none] => true
+   | _ => false)
 
 end Validate
